@@ -492,3 +492,118 @@ pub fn history_op() -> BoxedStrategy<Op> {
     ]
     .boxed()
 }
+
+// ---------------------------------------------------------------------------
+// Forged control requests for the responder properties (C12-C15)
+
+/// Weights of the request kinds: [set_eid, get_eid, uuid, version, msg_types, vendor, other]
+pub type ReqWeights = [u32; 7];
+
+/// A well-formed control request addressed to responder `a`, whose SMBus
+/// source address and source EID name the same 7-bit requester.
+pub fn ctrl_request(a: u8, nvend: usize, w: ReqWeights) -> BoxedStrategy<Vec<u8>> {
+    let nv = nvend.max(1);
+    let kind: BoxedStrategy<(u8, Vec<u8>)> = proptest::strategy::Union::new_weighted(vec![
+        (w[0].max(1), (prop_oneof![3 => Just(0u8), 3 => Just(1u8), 2 => Just(3u8), 1 => Just(2u8)], set_eid_value(false)).prop_map(|(op, eid)| (0x01u8, vec![op, eid])).boxed()),
+        (w[1].max(1), Just((0x02u8, vec![])).boxed()),
+        (w[2].max(1), Just((0x03u8, vec![])).boxed()),
+        (w[3].max(1), any_u8().prop_map(|q| (0x04u8, vec![q])).boxed()),
+        (w[4].max(1), Just((0x05u8, vec![])).boxed()),
+        (w[5].max(1), any::<u16>().prop_map(move |x| (0x06u8, vec![((x as usize * nv) >> 16) as u8])).boxed()),
+        (w[6].max(1), prop_oneof![
+            2 => any_u8().prop_map(|e| (0x07u8, vec![e])),
+            1 => (0u8..3, any_u8(), any_u8()).prop_map(|(o, p, s)| (0x08u8, vec![o, p, s])),
+            3 => (prop_oneof![Just(0x00u8), 0x09u8..=0x14, 0x15u8..=0xFF], vec(any::<u8>(), 0..=4)).prop_map(|(c, d)| (c, d)),
+            1 => (uuid(), any_u8()).prop_map(|(u, h)| { let mut d = u.to_vec(); d.push(h); (0x10u8, d) }),
+        ].boxed()),
+    ])
+    .boxed();
+    (
+        prop_oneof![5 => 0u8..=0x7F, 1 => Just(0x34u8), 1 => Just(0x7Fu8), 1 => Just(0x00u8)],
+        prop_oneof![4 => 0u8..32, 1 => Just(0u8), 1 => Just(31u8)],
+        any_u8(),
+        prop_oneof![3 => Just(0xC8u8), 1 => (0u8..16).prop_map(|t| 0xC0 | t)],
+        kind,
+    )
+        .prop_map(move |(s, iid, dest_eid, flags, (cmd, data))| {
+            let mut body = vec![0x80 | iid, cmd];
+            body.extend_from_slice(&data);
+            refmodel::build_packet(a, s, dest_eid, s, flags, 0x00, &body)
+        })
+        .boxed()
+}
+
+/// A corrupted or otherwise unacceptable variant of a control request.
+pub fn spoiled(req: BoxedStrategy<Vec<u8>>) -> BoxedStrategy<Vec<u8>> {
+    (req, 0u8..4, 1u8..=255, any::<u32>())
+        .prop_map(|(mut p, how, x, pos)| {
+            let n = p.len();
+            match how {
+                0 => {
+                    // wrong PEC
+                    p[n - 1] ^= x;
+                }
+                1 => {
+                    // burst somewhere
+                    let nbits = n as u64 * 8 - 7;
+                    let bit = ((pos as u64 * nbits) >> 32) as u32;
+                    p = crate::props::c02::apply_burst(&p, bit, x);
+                }
+                2 => {
+                    // one data byte too many, PEC valid
+                    p.insert(n - 1, x);
+                    p[2] = p[2].wrapping_add(1);
+                    refmodel::fix_pec(&mut p);
+                }
+                _ => {
+                    // one byte too few (when there is data), PEC valid; else bad header version
+                    if n > 12 {
+                        p.remove(n - 2);
+                        p[2] = p[2].wrapping_sub(1);
+                    } else {
+                        p[4] ^= 0x10;
+                    }
+                    refmodel::fix_pec(&mut p);
+                }
+            }
+            p
+        })
+        .boxed()
+}
+
+fn process_op(bytes: BoxedStrategy<Vec<u8>>) -> BoxedStrategy<Op> {
+    (bytes, 64u16..=300, any::<u8>()).prop_map(|(bytes, cap, fill)| Op::Process { bytes, cap, fill }).boxed()
+}
+
+/// Operation mix for the responder properties.  `w` weights the request
+/// kinds; `seteid_noise` adds corrupted / decode-only Set Endpoint ID traffic.
+pub fn responder_op(a: u8, nvend: usize, w: ReqWeights, seteid_noise: u32, uuid_updates: u32) -> BoxedStrategy<Op> {
+    let seteid_only: ReqWeights = [1000, 1, 1, 1, 1, 1, 1];
+    proptest::strategy::Union::new_weighted(vec![
+        (12, process_op(ctrl_request(a, nvend, w))),
+        (seteid_noise.max(1), process_op(spoiled(ctrl_request(a, nvend, seteid_only)))),
+        (seteid_noise.max(1), ctrl_request(a, nvend, seteid_only).prop_map(|bytes| Op::Decode { bytes }).boxed()),
+        (2, process_op(spoiled(ctrl_request(a, nvend, w)))),
+        (2, process_op(ref_valid_packet())),
+        (1, process_op(recv_input())),
+        (1, recv_input().prop_map(|bytes| Op::Decode { bytes }).boxed()),
+        (1, recv_input().prop_map(|bytes| Op::GetLength { bytes }).boxed()),
+        (1, any_u8().prop_map(Op::SetReqEid).boxed()),
+        (1, any_u8().prop_map(Op::SetRespEid).boxed()),
+        (uuid_updates.max(1), uuid().prop_map(Op::SetUuid).boxed()),
+        (2, (enc_call(false, false, false), addr7()).prop_map(|(call, dest)| Op::Encode { call, dest }).boxed()),
+        (1, (resp_call(false), addr7()).prop_map(|(call, dest)| Op::Encode { call, dest }).boxed()),
+    ])
+    .boxed()
+}
+
+/// (configuration, history) for the responder properties.
+pub fn responder_case(w: ReqWeights, seteid_noise: u32, uuid_updates: u32, max_ops: usize) -> BoxedStrategy<(CtxCfg, Vec<Op>)> {
+    ctx_cfg()
+        .prop_flat_map(move |cfg| {
+            let a = cfg.addr;
+            let n = cfg.vendors.len();
+            (Just(cfg), vec(responder_op(a, n, w, seteid_noise, uuid_updates), 1..=max_ops))
+        })
+        .boxed()
+}
